@@ -28,7 +28,7 @@ THEOREMS = [_T + n for n in [
     "tokenise_spec", "tokenise_is_unique", "subst_sim", "only_whole_words", "occurrence_replaced", "gap_untouched",
     "identity_no_param", "order_irrelevant", "first_binding_wins", "no_capture", "seq_capture_counterexample",
     "nonword_name_counterexample", "arity", "call_style", "build_accepts_iff", "nonnull_style_counterexample",
-    "finder_rejects_iff", "call_sites_found_partial", "receiver_not_name_counterexample", "receiver_bound",
+    "finder_rejects_iff", "finder_rejects_full_partial", "call_sites_found_partial", "receiver_not_name_counterexample", "receiver_bound",
     "result_visible", "includes_added", "pipeline_sound_partial", "query_sound_partial",
     "unique_name_injective_partial", "fresh_counterexample", "builtins_satisfy_hypotheses", "nonnull_is_modelled",
 ]]
@@ -235,7 +235,9 @@ def tree_expr(t: Dict[str, Any], texts: Dict[str, str], loop_var: str, names: se
 
 def in_force(case: Dict[str, Any]) -> Dict[str, Any]:
     tab: Dict[str, Any] = {k: h for k, h in gen_table(case["backend"])}
-    for s in case["specs"]:
+    # extract_metadata yields the MetaData calls outermost first, the table is filled in that order with later
+    # entries overriding: of two specifications with one name the one attached FIRST is in force
+    for s in reversed(case["specs"]):
         tab[s["name"]] = {"spec": s}
     return tab
 
@@ -257,6 +259,10 @@ def select_src(case: Dict[str, Any]) -> str:
 
 def observe_query(case: Dict[str, Any]) -> Tuple[Dict[str, Any], str]:
     """Run the real pipeline; returns (observation in driver JSON, loop variable)."""
+    if case.get("reset_counter") is not None:  # a listed finding that needs a particular value of the global name counter
+        import func_adl_xAOD.common.cpp_vars as cpp_vars
+
+        cpp_vars.unique_var_index = int(case["reset_counter"])
     r = impl.translate_query(case["backend"], case["specs"], select_src(case), case.get("second_select"), case.get("first_stage"))
     if "text" not in r:
         return {"err": r["err"], "msg": r.get("msg", "")}, "i_obj0"
@@ -282,7 +288,7 @@ def query_request(case: Dict[str, Any], obs: Optional[Dict[str, Any]], loop_var:
     cols = [tree_expr(c, texts, loop_var, set(tab)) for c in case["cols"]]
     allt = [json.dumps(case, ensure_ascii=False)]
     re_w, id_w = impl.word_classes(allt)
-    req = {"op": "query", "reW": re_w, "idW": id_w, "builtins": driver_table(case["backend"]), "specs": case["specs"],
+    req = {"op": "query", "reW": re_w, "idW": id_w, "builtins": driver_table(case["backend"]), "specs": list(reversed(case["specs"])),
            "env": [["j", loop_var]], "cols": cols, "start": 2}
     if obs is not None and "unparsed" not in obs:
         req["obs"] = {k: v for k, v in obs.items() if k not in ("bad", "msg")}
@@ -303,3 +309,368 @@ def canon_body(b: Dict[str, Any], loop_var: str) -> Dict[str, Any]:
     return {"decls": [[d[0], rn(d[1])] for d in b["decls"]],
             "blocks": [{"lines": [rn(l) for l in k["lines"]], "lhs": rn(k["lhs"]), "rhs": rn(k["rhs"])} for k in b["blocks"]],
             "cols": [rn(c) for c in b["cols"]]}
+
+
+# ---------------------------------------------------------------------------------------------- one case -> verdicts
+
+HOW = {
+    "subst": "from func_adl_xAOD.common.cpp_ast import _replace_whole_words; _replace_whole_words(case['line'], case['repl'])",
+    "build": "build_CPPCodeValue(CPPCodeSpecification(**case['spec']), ast.Call(func=case['func'], args=case['args']))  (tools/c11_lib/impl.py: build)",
+    "find": "cpp_ast_finder(table).visit(expr)  (tools/c11_lib/impl.py: find)",
+    "query": "dataset.MetaData(add_cpp_function ...)*.SelectMany(e -> collection).Select(<select>) through apply_ast_transformations + write_cpp_files  (tools/c11_lib/impl.py: translate_query; ./check C11 --replay <this file>)",
+}
+
+
+def key_of(case: Dict[str, Any]) -> str:
+    return case["kind"] + ":" + json.dumps({k: v for k, v in case.items() if k != "kind"}, sort_keys=True, ensure_ascii=False)
+
+
+def run_impl(case: Dict[str, Any]) -> Dict[str, Any]:
+    k = case["kind"]
+    if k == "subst":
+        return impl.replace_whole_words(case["line"], case["repl"])
+    if k == "build":
+        return impl.build(case["spec"], case["func"], case["args"])
+    if k == "find":
+        return impl.find(case["table"], case["expr"])
+    if k == "query":
+        obs, lv = observe_query(case)
+        return {"obs": obs, "loop_var": lv}
+    raise ValueError(k)
+
+
+def requests_for(case: Dict[str, Any], r: Dict[str, Any]) -> List[Dict[str, Any]]:
+    k = case["kind"]
+    if k == "subst":
+        re_w, id_w = impl.word_classes([case["line"]] + [x for p in case["repl"] for x in p])
+        q = {"op": "subst", "reW": re_w, "idW": id_w, "repl": case["repl"], "line": case["line"]}
+        if "ok" in r:
+            q["out"] = r["ok"]
+        return [q]
+    if k == "build":
+        q = {"op": "build", "spec": case["spec"], "func": case["func"], "args": case["args"]}
+        q["obs"] = {"ok": r["ok"]} if "ok" in r else {"err": r["err"]}
+        return [q]
+    if k == "find":
+        qs = [{"op": "find", "table": case["table"], "expr": case["expr"]}]
+        if "ok" in r:
+            qs.append({"op": "find", "table": case["table"], "expr": r["ok"]})  # NoPendingFull of what the code returned
+        return qs
+    if k == "query":
+        return [query_request(case, r["obs"], r["loop_var"])]
+    raise ValueError(k)
+
+
+def judge(case: Dict[str, Any], r: Dict[str, Any], ans: List[Dict[str, Any]]) -> Tuple[Optional[str], Optional[Tuple[Any, Any]]]:
+    """-> (why the Spec fails on the implementation's output | None, (model, impl) if they disagree | None)"""
+    if any("bad" in a for a in ans):
+        return None, None
+    k = case["kind"]
+    a = ans[0]
+    if k == "subst":
+        if "err" in r:
+            return f"_replace_whole_words raised {r['err']}", (a["model"], r)
+        why = None if a["holds"] else f"the line is not the simultaneous whole-word substitution: expected {a['sim']!r}, got {r['ok']!r}"
+        return why, (None if a["model"] == r["ok"] else (a["model"], r["ok"]))
+    if k == "build":
+        why = None
+        if not a["holds"]:
+            why = ("accepted although arity/call style do not match the specification" if ("ok" in r and not a["accepts"]) else
+                   f"refused ({r.get('err')}) although arity and call style match" if ("err" in r and a["accepts"]) else
+                   f"wrong exception class {r.get('err')}" if "err" in r else
+                   "the accepted call does not carry the specification (arguments, code, result, includes, type, receiver binding)")
+        if "ok" in a:
+            m = dict(a["ok"])
+            i = {x: r["ok"][x] for x in m} if "ok" in r else r
+            dis = None if m == i else (m, i)
+        else:
+            dis = None if r.get("err") == a.get("cls") else (a, r)
+        return why, dis
+    if k == "find":
+        why = None
+        if "ok" in r and not a["sitesOk"]:
+            why = "translated although a recognised call site has the wrong arity or call style"
+        elif "err" in r and a["sitesOk"]:
+            why = f"raised {r['err']} although every recognised call site is acceptable"
+        elif "ok" in r and a["receiverPlain"] and not ans[1].get("inputNoPendingFull", True):
+            why = "a call of an injected function is left in the expression"
+        if "ok" in a:
+            dis = None if r.get("ok") is not None and strip_decl(a["ok"]) == strip_decl(r["ok"]) else (a.get("ok"), r)
+        else:
+            dis = None if r.get("err") == a.get("cls") else (a, r)
+        return why, dis
+    if k == "query":
+        obs = r["obs"]
+        if "unparsed" in obs:
+            return "the generated loop body could not be read: " + obs["unparsed"], None
+        if obs.get("bad"):
+            return obs["bad"][0], None
+        why = None if a["holds"] else a["why"]
+        if "ok" in a:
+            if "err" in obs:
+                dis = (a["ok"], obs)
+            else:
+                m, i = canon_body(a["ok"], r["loop_var"]), canon_body(obs, r["loop_var"])
+                dis = None if m == i and set(a["ok"]["includes"]) <= set(obs["includes"]) else (m, i)
+        else:
+            dis = None if obs.get("err") == a.get("cls") else (a.get("cls"), obs)
+        return why, dis
+    raise ValueError(k)
+
+
+def strip_decl(e: Any) -> Any:
+    if isinstance(e, dict):
+        return {k: strip_decl(v) for k, v in e.items() if k != "declType"}
+    if isinstance(e, list):
+        return [strip_decl(x) for x in e]
+    return e
+
+
+def nontrivial(case: Dict[str, Any]) -> bool:
+    k = case["kind"]
+    if k == "subst":
+        return any(p[0] and p[0] in case["line"] for p in case["repl"])
+    if k == "build":
+        return True
+    if k == "find":
+        return any(json.dumps(case["expr"]).count('"%s"' % n) for n, _ in case["table"])
+    return sum(count_sites(c) for c in case["cols"]) >= 1
+
+
+def excluded(case: Dict[str, Any], a: Dict[str, Any]) -> Optional[str]:
+    """a generated case that fell into a defect exclusion (never fed to the main stream)"""
+    if case["kind"] == "query" and not (a.get("wf", True) and a.get("prefixOk", True) and a.get("receiverPlain", True)):
+        return "outside-hypotheses"
+    return None
+
+
+def evaluate(ctx, cases: List[Tuple[str, Dict[str, Any]]], report: bool = True) -> List[Tuple[Dict[str, Any], Dict[str, Any], Optional[str]]]:
+    """Run cases on the real code, the model and the Spec; record evidence; returns the failing ones."""
+    res = [run_impl(c) for _, c in cases]
+    ctx.check_time()
+    reqs, spans = [], []
+    for (_, c), r in zip(cases, res):
+        q = requests_for(c, r)
+        spans.append((len(reqs), len(q)))
+        reqs.extend(q)
+    ans = ctx.driver(DRIVER, reqs)
+    failing = []
+    for (stream, c), r, (o, n) in zip(cases, res, spans):
+        a = ans[o:o + n]
+        why, dis = judge(c, r, a)
+        if report:
+            ctx.count(f"stream:{stream}")
+            note_distribution(ctx, c, r, a[0] if a else {})
+            ctx.case(key_of(c), nontrivial(c), {"case": c, "implementation": brief(r)})
+        if why is not None:
+            failing.append((c, r, why))
+            if report:
+                ctx.violation(key=key_of(c), what=why, case=c, observed=brief(r), how=HOW[c["kind"]])
+        if dis is not None and report:
+            ctx.disagreement(c["kind"], c, dis[0], dis[1])
+    return failing
+
+
+def brief(r: Dict[str, Any]) -> Any:
+    s = json.dumps(r, ensure_ascii=False, default=str)
+    return r if len(s) < 4000 else s[:4000] + "…"
+
+
+def note_distribution(ctx, c, r, a):
+    k = c["kind"]
+    if k == "subst":
+        ctx.count("subst:bindings:%d" % min(len(c["repl"]), 5))
+        ctx.count("subst:" + ("changed" if r.get("ok") != c["line"] else "unchanged"))
+        if any(ord(ch) >= 128 for ch in c["line"] + "".join(x for p in c["repl"] for x in p)):
+            ctx.count("subst:non-ascii")
+    elif k == "build":
+        ctx.count("build:" + ("accepted" if "ok" in r else r["err"]))
+    elif k == "find":
+        ctx.count("find:" + ("ok" if "ok" in r else r["err"]))
+    else:
+        obs = r["obs"]
+        ctx.count(f"query:{c['backend']}")
+        ctx.count("query:" + ("translated" if "err" not in obs else obs["err"]))
+        ctx.count("query:sites:%d" % min(sum(count_sites(x) for x in c["cols"]), 8))
+        depth = max((_depth(x) for x in c["cols"]), default=0)
+        ctx.count("query:nesting:%d" % depth)
+        if not (a.get("wf", True) and a.get("prefixOk", True)):
+            ctx.count("query:outside-hypotheses")
+
+
+def _depth(t) -> int:
+    return 0 if "f" not in t else 1 + max((_depth(a) for a in t["args"]), default=0)
+
+
+# ---------------------------------------------------------------------------------------------- streams
+
+def replay_input(ctx, inp: Dict[str, Any]) -> List[Tuple[Dict[str, Any], Dict[str, Any], Optional[str]]]:
+    cases = inp["cases"] if "cases" in inp else [inp]
+    return evaluate(ctx, [("finding", c) for c in cases], report=False)
+
+
+def findings_stream(ctx):
+    for e in ctx.known_entries("known"):
+        bad = replay_input(ctx, e["input"])
+        ctx.count("findings:known-replayed")
+        if bad:
+            c, r, why = bad[0]
+            ctx.violation(key=e["key"], what=why, case=c, observed=brief(r), how=HOW[c["kind"]])
+    for e in ctx.known_entries("fixed"):
+        bad = replay_input(ctx, e["input"])
+        ctx.count("findings:fixed-replayed")
+        if bad:
+            c, r, why = bad[0]
+            ctx.violation(key="regressed:" + e["key"], what="REGRESSION of a repaired defect (" + e["what"] + "): " + why,
+                          case=c, observed=brief(r), how=HOW[c["kind"]])
+
+
+def generated_cases(ctx):
+    from vlib import corpus_cases
+
+    rng = ctx.rng
+    quick = ctx.tier == "quick"
+    for c in corpus_cases(ID):
+        yield "corpus", c
+    for c in gen.subst_exhaustive(5 if quick else 6):
+        yield "subst-exhaustive", c
+    for _ in range(6000 if quick else 60000):
+        yield "subst", gen.subst_case(rng)
+    for _ in range(1500 if quick else 15000):
+        yield "build", gen.build_case(rng)
+    for _ in range(1500 if quick else 15000):
+        yield "find", gen.find_case(rng)
+    for _ in range(700 if quick else 7000):
+        be = rng.choice(["atlas"] * 8 + ["cms_aod", "cms_miniaod"])
+        yield "query", gen.query_case(rng, be, gen_table(be))
+
+
+def run(ctx):
+    for be in impl.BACKENDS:
+        leaf_texts(be)
+    findings_stream(ctx)
+    cases = list(generated_cases(ctx))
+    # generated cases that fall into a defect exclusion are decided first and dropped from the main stream
+    step = 4000
+    for i in range(0, len(cases), step):
+        chunk = cases[i:i + step]
+        qs = [(s, c) for s, c in chunk if c["kind"] == "query"]
+        keep = set()
+        if qs:
+            pre = ctx.driver(DRIVER, [query_request(c, None, "i_obj0") for _, c in qs])
+            for (s, c), a in zip(qs, pre):
+                if "bad" in a or (a.get("wf", True) and a.get("prefixOk", True) and a.get("receiverPlain", True) and a.get("styleStrict", True)):
+                    keep.add(id(c))
+                else:
+                    ctx.count("query:generated-inside-a-defect-exclusion(dropped)")
+        evaluate(ctx, [(s, c) for s, c in chunk if c["kind"] != "query" or id(c) in keep])
+        ctx.check_time()
+    if ctx.tier == "thorough":
+        from c11_lib import exec_oracle
+
+        exec_oracle.run(ctx)
+    ctx.extra_cov["exhaustive"] = False
+    ctx.extra_cov["exhaustive_part"] = "all template lines of <=%d characters over {a,b,+,space} x 6 replacement lists" % (5 if ctx.tier == "quick" else 6)
+    ctx.extra_cov["outside_hypotheses"] = (
+        "excluded from the theorems and from the generators, exercised through the listed findings only: method-style call of an injected "
+        "function on a receiver that is not a plain name; function names ending in a digit (freshness clause only); parameter names that are "
+        "not words of the regex class; method-style call of the built-in isNonnull")
+
+
+# ---------------------------------------------------------------------------------------------- search / shrink / replay
+
+def shrink(ctx, case: Dict[str, Any]) -> Dict[str, Any]:
+    def fails(c) -> bool:
+        try:
+            return bool(evaluate(ctx, [("shrink", c)], report=False))
+        except Exception:
+            return False
+
+    changed = True
+    while changed:
+        changed = False
+        for cand in shrink_candidates(case):
+            if fails(cand):
+                case, changed = cand, True
+                break
+    return case
+
+
+def shrink_candidates(c: Dict[str, Any]):
+    k = c["kind"]
+    if k == "subst":
+        for i in range(len(c["repl"])):
+            if len(c["repl"]) > 1:
+                yield {**c, "repl": c["repl"][:i] + c["repl"][i + 1:]}
+        n = len(c["line"])
+        for size in (n // 2, n // 4, 1):
+            if size >= 1:
+                for i in range(0, n, size):
+                    yield {**c, "line": c["line"][:i] + c["line"][i + size:]}
+    elif k == "query":
+        for i in range(len(c["cols"])):
+            if len(c["cols"]) > 1:
+                yield {**c, "cols": c["cols"][:i] + c["cols"][i + 1:]}
+        for i, col in enumerate(c["cols"]):
+            for sub in subtrees(col):
+                if sub is not col and "f" in sub:
+                    yield {**c, "cols": c["cols"][:i] + [sub] + c["cols"][i + 1:]}
+        for i, s in enumerate(c["specs"]):
+            if len(s["code"]) > 1:
+                for j in range(len(s["code"]) - 1):
+                    yield {**c, "specs": c["specs"][:i] + [{**s, "code": s["code"][:j] + s["code"][j + 1:]}] + c["specs"][i + 1:]}
+            if s["includes"]:
+                yield {**c, "specs": c["specs"][:i] + [{**s, "includes": []}] + c["specs"][i + 1:]}
+        used = {t["f"] for col in c["cols"] for t in subtrees(col) if "f" in t}
+        for i, s in enumerate(c["specs"]):
+            if s["name"] not in used:
+                yield {**c, "specs": c["specs"][:i] + c["specs"][i + 1:]}
+
+
+def subtrees(t):
+    yield t
+    for a in t.get("args", []):
+        yield from subtrees(a)
+
+
+def search(ctx, broken):
+    """larger sweep, the Spec evaluated on the implementation's output is the only judge"""
+    rng = ctx.rng
+    cases = [("search", c) for c in gen.subst_exhaustive(5)]
+    cases += [("search", gen.subst_case(rng)) for _ in range(20000)]
+    cases += [("search", gen.build_case(rng)) for _ in range(4000)]
+    cases += [("search", gen.find_case(rng)) for _ in range(4000)]
+    for _ in range(1500):
+        be = rng.choice(["atlas"] * 6 + ["cms_aod", "cms_miniaod"])
+        cases.append(("search", gen.query_case(rng, be, gen_table(be))))
+    for e in ctx.known_entries("fixed"):
+        for c in (e["input"]["cases"] if "cases" in e["input"] else [e["input"]]):
+            cases.insert(0, ("search", c))
+    best = None
+    for i in range(0, len(cases), 4000):
+        bad = evaluate(ctx, cases[i:i + 4000], report=False)
+        for c, r, why in bad:
+            size = len(json.dumps(c))
+            if best is None or size < best[0]:
+                best = (size, c, r, why)
+        if best is not None:
+            break
+    if best is None:
+        return None
+    c = shrink(ctx, best[1])
+    bad = evaluate(ctx, [("search", c)], report=False)
+    c, r, why = bad[0] if bad else (best[1], best[2], best[3])
+    return {"key": key_of(c), "what": why, "case": c, "observed": brief(r), "replay_how": HOW[c["kind"]]}
+
+
+def replay(ctx, rep) -> int:
+    case = rep["case"]
+    r = run_impl(case)
+    a = ctx.driver(DRIVER, requests_for(case, r))
+    why, dis = judge(case, r, a)
+    if case["kind"] == "query":
+        print("select:", select_src(case))
+    print("implementation:", json.dumps(r, ensure_ascii=False, default=str)[:6000])
+    print("driver:", json.dumps(a, ensure_ascii=False)[:6000])
+    print("spec:", "HOLDS" if why is None else "FAILS: " + why)
+    return 0 if why is None else 1
